@@ -4,11 +4,11 @@ import (
 	"bytes"
 	"context"
 	"database/sql"
+	"encoding/binary"
 	"encoding/json"
 	"fmt"
 	"io"
 	"log/slog"
-	"strings"
 	"sync"
 
 	"go.opentelemetry.io/otel"
@@ -66,7 +66,7 @@ func NewStorageMiddleware(innerStorage storage.Storage, cache cachepkg.Cache, op
 }
 
 func objectCacheKey(bucketName storage.BucketName, key storage.ObjectKey) string {
-	return fmt.Sprintf("OBJECTCACHE_OBJECT_BODY_%s_%s", bucketName.String(), key.String())
+	return fmt.Sprintf("OBJECTCACHE_OBJECT_%s_%s", bucketName.String(), key.String())
 }
 
 func headCacheKey(bucketName storage.BucketName, key storage.ObjectKey) string {
@@ -90,7 +90,8 @@ func (m *objectCacheStorageMiddleware) HeadObject(ctx context.Context, bucketNam
 	}
 
 	objKey := objectCacheKey(bucketName, key)
-	if cachedObj, err := m.readObjectFromCache(ctx, objKey); err == nil {
+	if cachedObj, bodyReader, err := m.readObjectFromCache(ctx, objKey); err == nil {
+		_ = bodyReader.Close()
 		if err = validateConditionalHead(cachedObj, opts); err != nil {
 			return nil, err
 		}
@@ -140,17 +141,14 @@ func (m *objectCacheStorageMiddleware) GetObject(ctx context.Context, bucketName
 	}
 
 	objKey := objectCacheKey(bucketName, key)
-	if cachedObj, err := m.readObjectFromCache(ctx, objKey); err == nil {
+	if cachedObj, bodyReader, err := m.readObjectFromCache(ctx, objKey); err == nil {
 		if err = validateConditionalGet(cachedObj, opts); err != nil {
+			_ = bodyReader.Close()
 			return nil, nil, err
 		}
-		bodyReader, getErr := m.cache.Get(objKey)
-		if getErr == nil {
-			return cloneObject(cachedObj), []io.ReadCloser{bodyReader}, nil
-		}
-		if getErr != cachepkg.ErrCacheMiss && !m.cacheReadErrorsAsMiss {
-			return nil, nil, getErr
-		}
+		return cloneObject(cachedObj), []io.ReadCloser{bodyReader}, nil
+	} else if err != cachepkg.ErrCacheMiss {
+		return nil, nil, err
 	}
 
 	inflight, leader := m.getOrCreateInflightGet(objKey)
@@ -159,33 +157,28 @@ func (m *objectCacheStorageMiddleware) GetObject(ctx context.Context, bucketName
 		if inflight.err != nil {
 			return nil, nil, inflight.err
 		}
-		if cachedObj, err := m.readObjectFromCache(ctx, objKey); err == nil {
+		if cachedObj, bodyReader, err := m.readObjectFromCache(ctx, objKey); err == nil {
 			if err = validateConditionalGet(cachedObj, opts); err != nil {
+				_ = bodyReader.Close()
 				return nil, nil, err
 			}
-			bodyReader, getErr := m.cache.Get(objKey)
-			if getErr == nil {
-				return cloneObject(cachedObj), []io.ReadCloser{bodyReader}, nil
-			}
-			if getErr != cachepkg.ErrCacheMiss && !m.cacheReadErrorsAsMiss {
-				return nil, nil, getErr
-			}
+			return cloneObject(cachedObj), []io.ReadCloser{bodyReader}, nil
+		} else if err != cachepkg.ErrCacheMiss {
+			return nil, nil, err
 		}
 	}
 
-	if cachedObj, err := m.readObjectFromCache(ctx, objKey); err == nil {
+	if cachedObj, bodyReader, err := m.readObjectFromCache(ctx, objKey); err == nil {
 		m.finishInflightGet(objKey, inflight, nil)
 		inflight = nil
 		if err = validateConditionalGet(cachedObj, opts); err != nil {
+			_ = bodyReader.Close()
 			return nil, nil, err
 		}
-		bodyReader, getErr := m.cache.Get(objKey)
-		if getErr == nil {
-			return cloneObject(cachedObj), []io.ReadCloser{bodyReader}, nil
-		}
-		if getErr != cachepkg.ErrCacheMiss && !m.cacheReadErrorsAsMiss {
-			return nil, nil, getErr
-		}
+		return cloneObject(cachedObj), []io.ReadCloser{bodyReader}, nil
+	} else if err != cachepkg.ErrCacheMiss {
+		m.finishInflightGet(objKey, inflight, err)
+		return nil, nil, err
 	}
 
 	obj, readers, err := m.Next.GetObject(ctx, bucketName, key, nil, opts)
@@ -212,14 +205,21 @@ func (m *objectCacheStorageMiddleware) GetObject(ctx context.Context, bucketName
 	}
 
 	pr, pw := io.Pipe()
+	entry, entryHeadSize, err := newObjectCacheEntry(obj, pr)
+	if err != nil {
+		slog.DebugContext(ctx, "Failed to encode object cache entry", "key", objKey, "error", err)
+		m.finishInflightGet(objKey, inflight, nil)
+		inflight = nil
+		return obj, readers, nil
+	}
 	cacheWriteDone := make(chan struct{})
-	go func(cacheKey string, objectSize int64) {
+	go func(cacheKey string, entrySize int64) {
 		defer close(cacheWriteDone)
-		setErr := m.cache.Set(cacheKey, pr, objectSize)
+		setErr := m.cache.Set(cacheKey, entry, entrySize)
 		if setErr != nil {
 			slog.DebugContext(ctx, "Failed to write streamed object body to cache", "key", cacheKey, "error", setErr)
 		}
-	}(objKey, obj.Size)
+	}(objKey, entryHeadSize+obj.Size)
 
 	return cloneObject(obj), []io.ReadCloser{&cacheOnReadCloser{
 		ReadCloser:     readers[0],
@@ -367,8 +367,12 @@ func (m *objectCacheStorageMiddleware) PutObject(ctx context.Context, bucketName
 	// The object may already have been replaced by another write; the body is
 	// only cached if it belongs to the metadata that is cached with it.
 	if teedReader.cacheEligible && result.ETag != nil && obj.ETag == *result.ETag && obj.Size == int64(len(teedReader.data)) {
-		if setErr := m.cache.Set(objKey, bytes.NewReader(teedReader.data), int64(len(teedReader.data))); setErr != nil {
-			slog.DebugContext(ctx, "Failed to write object body into cache on put", "key", objKey, "error", setErr)
+		entry, entryHeadSize, entryErr := newObjectCacheEntry(obj, bytes.NewReader(teedReader.data))
+		if entryErr == nil {
+			entryErr = m.cache.Set(objKey, entry, entryHeadSize+int64(len(teedReader.data)))
+		}
+		if entryErr != nil {
+			slog.DebugContext(ctx, "Failed to write object into cache on put", "key", objKey, "error", entryErr)
 			_ = m.cache.Remove(objKey)
 		}
 	}
@@ -471,23 +475,48 @@ func (m *objectCacheStorageMiddleware) readHeadFromCache(ctx context.Context, ke
 	return &obj, nil
 }
 
-func (m *objectCacheStorageMiddleware) readObjectFromCache(ctx context.Context, key string) (*storage.Object, error) {
-	headKey := strings.Replace(key, "OBJECTCACHE_OBJECT_BODY_", "OBJECTCACHE_HEAD_", 1)
-	obj, err := m.readHeadFromCache(ctx, headKey)
+// A cached object is one cache entry that holds the metadata and the body:
+// the length of the JSON encoded metadata as 8 bytes (big endian), the
+// metadata, then the body. Keeping both in a single entry makes sure that a
+// reader never combines the metadata of one version of the object with the
+// body of another one while the entry is being replaced.
+func newObjectCacheEntry(obj *storage.Object, body io.Reader) (io.Reader, int64, error) {
+	head, err := json.Marshal(obj)
 	if err != nil {
-		return nil, err
+		return nil, 0, err
 	}
+	entryHead := binary.BigEndian.AppendUint64(make([]byte, 0, 8+len(head)), uint64(len(head)))
+	entryHead = append(entryHead, head...)
+	return io.MultiReader(bytes.NewReader(entryHead), body), int64(len(entryHead)), nil
+}
+
+// readObjectFromCache returns the metadata of a cached object and a reader
+// for its body.
+func (m *objectCacheStorageMiddleware) readObjectFromCache(ctx context.Context, key string) (*storage.Object, io.ReadCloser, error) {
 	rc, err := m.cache.Get(key)
 	if err != nil {
 		if err != cachepkg.ErrCacheMiss && !m.cacheReadErrorsAsMiss {
-			return nil, err
+			return nil, nil, err
 		}
-		return nil, cachepkg.ErrCacheMiss
+		return nil, nil, cachepkg.ErrCacheMiss
 	}
-	if err = rc.Close(); err != nil {
-		return nil, cachepkg.ErrCacheMiss
+	var obj storage.Object
+	var headSize [8]byte
+	_, err = io.ReadFull(rc, headSize[:])
+	if err == nil {
+		var head []byte
+		head, err = io.ReadAll(io.LimitReader(rc, int64(binary.BigEndian.Uint64(headSize[:]))))
+		if err == nil {
+			err = json.Unmarshal(head, &obj)
+		}
 	}
-	return obj, nil
+	if err != nil {
+		_ = rc.Close()
+		_ = m.cache.Remove(key)
+		slog.DebugContext(ctx, "Failed to decode object cache entry", "key", key, "error", err)
+		return nil, nil, cachepkg.ErrCacheMiss
+	}
+	return &obj, rc, nil
 }
 
 func (m *objectCacheStorageMiddleware) writeHeadToCache(ctx context.Context, key string, obj *storage.Object) error {
